@@ -5,7 +5,7 @@ use litmus::*;
 
 fn main() {
     let mut t = Tally::new();
-    for r in 0..rounds(3) {
+    for r in 0..rounds(6) {
         clone_read_drop::<Thin>(&mut t, 2, 30 + r as u64);
     }
     t.finish();
